@@ -58,7 +58,7 @@ func (a arrErr) MarshalLogArray(enc zapcore.ArrayEncoder) error {
 }
 func (a arrErr) Error() string { return "arrErr" }
 
-const alphabet = "FSINETVOX"
+const alphabet = "FSINETVOXR"
 
 // sym materialises one argument for symbol c at position i.
 func sym(c byte, i int) interface{} {
@@ -87,6 +87,10 @@ func sym(c byte, i int) interface{} {
 		return true
 	case 'U':
 		return pt{i, -i}
+	case 'R':
+		// a typed error field under the key "error": it is a field like any other and does not make a
+		// later bare error the "second" one
+		return zap.Error(fmt.Errorf("typed%d", i))
 	case 'X':
 		return errObj{i}
 	case 'Y':
